@@ -599,6 +599,9 @@ class World(object):
         args = dict(topic=t, qos=qos, retain=bool(retain), payload=body.encode("ascii"), as_str=bool(as_str))
         self.api(conn, "publish", args,
                  lambda r: conn.proto.publish(topic=t, message=payload, qos=qos, retain=bool(retain)))
+        if isinstance(payload, bytearray) and len(payload):
+            # applications reuse their buffers: what was published is what publish() was given at call time
+            payload[:] = b"\xee" * len(payload)
 
     def publish_raw(self, conn, topic, message, qos, retain, valid):
         args = dict(topic=topic, qos=qos, retain=retain, payload=message, raw=True)
